@@ -326,6 +326,9 @@ func (f *Frame) decodeInto(kind string, data Val, fn *ssa.Function, in ssa.Instr
 	elem := pt.Elem()
 	s := ex.reg.SortOf(elem)
 	ufn := ex.reg.UFun(kind+"_"+sortTag(s)+"_"+hashName(types.TypeString(elem, nil)), []Sort{SBytes}, s)
+	okfn := ex.reg.UFun(kind+"ok_"+sortTag(s)+"_"+hashName(types.TypeString(elem, nil)), []Sort{SBytes}, SBool)
+	// success of decoding is a function of the input bytes
+	ex.vc.Assume(eq(eq(app("itag", errV.T), "0"), app(okfn, data.T)))
 	decoded := ex.vc.Define("dec", s, app(ufn, data.T))
 	for _, inv := range ex.reg.TypeInv(decoded, elem, 0) {
 		ex.vc.Assume(inv)
@@ -382,6 +385,8 @@ func (f *Frame) serializerInvoke(c *ssa.CallCommon, args []Val, in ssa.Instructi
 			h := hashName(types.TypeString(vt, nil))
 			sfn := ex.reg.UFun("ser_"+sortTag(s)+"_"+h, []Sort{s}, SBytes)
 			dfn := ex.reg.UFun("deser_"+sortTag(s)+"_"+h, []Sort{SBytes}, s)
+			dok := ex.reg.UFun("deserok_"+sortTag(s)+"_"+h, []Sort{SBytes}, SBool)
+			ex.vc.Assume(app(dok, app(sfn, vterm)))
 			okc := eq(app("itag", errV.T), "0")
 			ex.vc.Assume(implies(okc, eq(out.T, app(sfn, vterm))))
 			ex.vc.Assume(eq(app(dfn, app(sfn, vterm)), vterm))
@@ -404,6 +409,8 @@ func (f *Frame) serializerInvoke(c *ssa.CallCommon, args []Val, in ssa.Instructi
 		dfn := ex.reg.UFun("deser_"+sortTag(s)+"_"+h, []Sort{SBytes}, s)
 		pv := f.val(payload, st)
 		errV := ex.havocVal("deser_err", types.Universe.Lookup("error").Type())
+		dok := ex.reg.UFun("deserok_"+sortTag(s)+"_"+h, []Sort{SBytes}, SBool)
+		ex.vc.Assume(eq(eq(app("itag", errV.T), "0"), app(dok, args[0].T)))
 		decoded := ex.vc.Define("dec", s, app(dfn, args[0].T))
 		for _, inv := range ex.reg.TypeInv(decoded, elem, 0) {
 			ex.vc.Assume(inv)
